@@ -9,6 +9,7 @@
 //	b<s><l>                   transaction slot s = Begin(level l: 0 RU, 1 RC, 2 RR, 3 SER)
 //	s<s><k> d<s><k> g<s><k> k<s> c<s> r<s>   Set / Delete / Get / GetKeys / Commit / Rollback through slot s
 //	X                         one garbage-collection period elapses (Sched -> Send -> worker -> DeleteOld)
+//	<step>*<n>                the step n times in a row
 //
 // "I:" steps run sequentially before the threads start (set-up, not explored); afterwards the main
 // thread waits for all threads, lets background work settle and reads every key and the key list.
@@ -57,6 +58,8 @@ type program struct {
 	// reopen: after the final reads the database is closed, a new process opens it and reads again: the
 	// committed state the clients left must be the state the next process finds (differential oracle)
 	reopen bool
+	// roundRobin: the default schedule alternates between the threads at every point (vrt.Options.RoundRobin)
+	roundRobin bool
 }
 
 func parseSteps(s string) []step {
@@ -64,6 +67,12 @@ func parseSteps(s string) []step {
 	for _, tok := range strings.Split(s, ".") {
 		if tok == "" {
 			continue
+		}
+		// "<step>*<n>": the step n times in a row (bulk programs)
+		rep := 1
+		if i := strings.LastIndex(tok, "*"); i > 0 {
+			fmt.Sscan(tok[i+1:], &rep)
+			tok = tok[:i]
 		}
 		st := step{kind: tok[0]}
 		switch tok[0] {
@@ -81,7 +90,9 @@ func parseSteps(s string) []step {
 		default:
 			panic("dbconc: bad step " + tok)
 		}
-		out = append(out, st)
+		for ; rep > 0; rep-- {
+			out = append(out, st)
+		}
 	}
 	return out
 }
@@ -103,6 +114,8 @@ func parse(p string) *program {
 				pr.unlockPoints = true
 			case kv == "reopen=1":
 				pr.reopen = true
+			case kv == "rr=1":
+				pr.roundRobin = true
 			}
 		}
 		p = p[:i]
@@ -704,6 +717,7 @@ func init() {
 				o.LongTimer = dbh.GCPeriod / 2
 				o.WriterAnnounce = pr.writerAnnounce
 				o.UnlockPoints = pr.unlockPoints
+				o.RoundRobin = pr.roundRobin
 			},
 			Body: pr.body,
 			Kind: func(v string) string {
